@@ -202,6 +202,32 @@ def drive_default(chk, rng, thorough):
                 if a[0] == "ok" and a != b:
                     chk.diverge({"clause": "case-insensitive-changes-exact-spelling", "class": "casei-ambiguity", "src": "default-registry"},
                                 {"string": s_, "case_sensitive": a, "case_insensitive": b})
+    # spellings with letters outside ASCII (micro sign, ohm sign, angstrom ...): lower() and casefold() differ on some of them; a
+    # correctly cased spelling keeps its meaning in the case-insensitive registry - bare, prefixed, plural, and through get_symbol
+    nonascii = sorted(sp_ for sp_ in usp if not sp_.isascii() and sp_.isidentifier())
+    if len(nonascii) < 10:
+        raise MachineryError("only %d non-ASCII spellings in the definition files" % len(nonascii))
+    for sp_ in nonascii:
+        for pre in ("", "k", "kilo", "m", "µ"):
+            for suf in ("", "s"):
+                s_ = pre + sp_ + suf
+                a, b = real_resolve(fresh, s_), real_resolve(uci, s_)
+                chk.case(("casei-nonascii", s_))
+                if a[0] == "ok" and a != b:
+                    chk.diverge({"clause": "case-insensitive-changes-exact-spelling", "class": "non-ascii", "src": "default-registry"},
+                                {"string": s_, "case_sensitive": a, "case_insensitive": b})
+        for fn in ("get_symbol", "get_name"):
+            try:
+                a = getattr(fresh, fn)(sp_)
+            except Exception:
+                continue
+            try:
+                b = getattr(uci, fn)(sp_)
+            except Exception as e:
+                b = "EXC:" + type(e).__name__
+            if a != b:
+                chk.diverge({"clause": "case-insensitive-changes-exact-spelling", "class": "non-ascii", "src": "default-registry", "form": fn},
+                            {"string": sp_, "case_sensitive": a, "case_insensitive": b})
     return events
 
 
